@@ -305,7 +305,10 @@ def components(ctx):
              "label is reached for another option). "
              "Non-trivial = some parse has a word that looks like an option ('-' plus at least one more byte); "
              "distinct by hash of the op list" % CHUNK,
-        classify=classify)]
+        classify=classify,
+        # black-box fallback (h_getopt.c -DHC_BLACKBOX): getopt.c compiled separately; its statics (option table, packed-group
+        # position, atexit registration) cannot be reset through getopt.h, so every case gets its own process
+        bb_ok=True, bb_srcs=["util/getopt.c"], bb_fresh=True)]
 
 
 ASSUMPTIONS = [
